@@ -7,11 +7,11 @@
 package vos
 
 import (
+	"time"
 	"errors"
 	"io"
 	"io/fs"
 	"os"
-	"time"
 )
 
 // ---- re-exported surface of package os -----------------------------------------
@@ -115,7 +115,36 @@ func Lchown(name string, uid, gid int) error         { return os.Lchown(name, ui
 func LookupEnv(key string) (string, bool)            { return os.LookupEnv(key) }
 func NewSyscallError(s string, err error) error      { return os.NewSyscallError(s, err) }
 func Readlink(name string) (string, error)           { return os.Readlink(name) }
-func SameFile(a, b FileInfo) bool                    { return os.SameFile(a, b) }
+func SameFile(a, b FileInfo) bool                    { return os.SameFile(uncoarse(a), uncoarse(b)) }
+
+// MtimeGranularity > 0: every FileInfo the code under test obtains reports its modification
+// time truncated to this granularity - a file system with coarse time stamps (one-second
+// or two-second granularity, or a kernel that stamps files with the time of the last timer
+// tick), on which files written shortly after each other carry EQUAL time stamps. Set by
+// the harness for some scenarios; the sandbox's own file systems have nanosecond stamps.
+var MtimeGranularity time.Duration
+
+type coarseInfo struct {
+	os.FileInfo
+	g time.Duration
+}
+
+func (c coarseInfo) ModTime() time.Time { return c.FileInfo.ModTime().Truncate(c.g) }
+
+// Coarsen applies MtimeGranularity to a FileInfo (used by the sibling shim packages too).
+func Coarsen(fi os.FileInfo) os.FileInfo {
+	if fi == nil || MtimeGranularity <= 0 {
+		return fi
+	}
+	return coarseInfo{fi, MtimeGranularity}
+}
+
+func uncoarse(fi os.FileInfo) os.FileInfo {
+	if c, ok := fi.(coarseInfo); ok {
+		return c.FileInfo
+	}
+	return fi
+}
 func Setenv(key, value string) error                 { return os.Setenv(key, value) }
 func TempDir() string                                { return os.TempDir() }
 func Unsetenv(key string) error                      { return os.Unsetenv(key) }
@@ -414,7 +443,7 @@ func Stat(name string) (FileInfo, error) {
 	}
 	fi, err := os.Stat(name)
 	leave(op, err)
-	return fi, err
+	return Coarsen(fi), err
 }
 
 func Lstat(name string) (FileInfo, error) {
@@ -428,7 +457,7 @@ func Lstat(name string) (FileInfo, error) {
 	}
 	fi, err := os.Lstat(name)
 	leave(op, err)
-	return fi, err
+	return Coarsen(fi), err
 }
 
 func Pipe() (r *File, w *File, err error) {
@@ -589,7 +618,8 @@ func (f *File) Stat() (FileInfo, error) {
 	if f == nil || f.File == nil {
 		return nil, os.ErrInvalid
 	}
-	return f.File.Stat()
+	fi, err := f.File.Stat()
+	return Coarsen(fi), err
 }
 
 func (f *File) Name() string {
